@@ -93,9 +93,28 @@ func main() {
 		jobs = append(jobs, vlib.E1Job{Name: fmt.Sprintf("c05-live/%s/n=%d/t=%d/%v/rounds=%d/drop=%v/scripts=%d", j.scheme, j.n, j.t, j.be, j.rounds, j.drop, len(sc.Scripts)), Bound: j.bound,
 			Run: func(devs []vrt.Dev) *explore.Exec { return run(sc, devs, false) }, Labeled: func(devs []vrt.Dev) *explore.Exec { return run(sc, devs, true) }})
 	}
+	F := func(k string, node int, at uint64) bnet.Fault { return bnet.Fault{Kind: k, Node: node, AtRound: at} }
+	// c05-outage: fewer than a threshold connected for many rounds (longer than the window of rounds for which partials
+	// are cached), then everybody is back: the chain resumes from where it stopped and catches up
+	{
+		outage := [][]bnet.Fault{
+			{F("partition", 0, 2), F("partition", 1, 2), F("partition", 2, 2), F("heal", 0, 10), F("heal", 1, 10), F("heal", 2, 10)},
+			{F("partition", 0, 2), F("partition", 1, 2), F("heal", 0, 9), F("heal", 1, 11)},
+			{F("stop", 0, 2), F("stop", 1, 2), F("restart", 0, 9), F("restart", 1, 9)},
+		}
+		for _, scheme := range []string{crypto.DefaultSchemeID, crypto.UnchainedSchemeID} {
+			k := bnet.NewKeys(scheme, 3, 2, 3*time.Second, genesis)
+			b := 0
+			if !c.Quick() && scheme == crypto.DefaultSchemeID {
+				b = 1
+			}
+			sc := &bnet.Scenario{Keys: k, Backends: []string{"memdb", "memdb", "memdb"}, Rounds: 18, Scripts: outage}
+			jobs = append(jobs, vlib.E1Job{Name: fmt.Sprintf("c05-outage/%s/n=3/t=2/rounds=18/scripts=%d", scheme, len(outage)), Bound: b,
+				Run: func(devs []vrt.Dev) *explore.Exec { return run(sc, devs, false) }, Labeled: func(devs []vrt.Dev) *explore.Exec { return run(sc, devs, true) }})
+		}
+	}
 	// c05-stall: a node catching up over a sync stream whose server is cut off in the middle (the stream goes silent, it
 	// does not end): the sync must be renewed with the other peers and the chain must go on once a threshold is connected
-	F := func(k string, node int, at uint64) bnet.Fault { return bnet.Fault{Kind: k, Node: node, AtRound: at} }
 	stall := [][]bnet.Fault{
 		{F("partition", 1, 13), F("heal", 1, 17)},
 		{F("partition", 2, 13), F("heal", 2, 18)},
